@@ -75,6 +75,15 @@ def oracle(case):
     require(X.shape == (n, 2), 'sample(%d) returned shape %s' % (n, X.shape), tag='shape')
     require(np.all(np.isfinite(X)), 'sample contains non-finite values', tag='finite')
     require(np.all((X >= 0) & (X <= 1)), 'sample outside [0,1]: min %r max %r' % (X.min(), X.max()), tag='range')
+    # a uniform column is continuous: n float64 draws collide with probability ~ n^2 / 2^53 (4e-8 for n = 20000), and
+    # the unchanged code showed no repeated value in 14 x 20000 rows over the whole parameter range.  An atom (rows
+    # pushed onto a bound or onto a shared value) of a fraction of a percent is far below the DKW band but not uniform.
+    for j in (0, 1):
+        vals, counts = np.unique(X[:, j], return_counts=True)
+        tied = int(counts[counts > 1].sum())
+        require(tied <= 3, '%s(theta=%r): column %d of sample(%d) has %d rows sharing their value with another row (most frequent value %r, %d times): '
+                'the column has an atom, it is not uniformly distributed' % (fam, theta, j, n, tied, float(vals[np.argmax(counts)]), int(counts.max())),
+                tag='margin-atom')
     eps = vs.dkw_eps(n)
     worst = 0.0
     for j in (0, 1):
